@@ -117,7 +117,7 @@ Qed.
 
 Lemma param_nwd c : is_param_char c = true -> not_ws_delim c = true.
 Proof.
-  unfold is_param_char, not_ws_delim, is_ws, is_delim, is_digit09. intros H.
+  unfold is_param_char, not_ws_delim, word_end, is_ws, is_delim, is_digit09, c_comma, c_semi. intros H.
   repeat match goal with |- context [c =? ?k] => destruct (N.eqb_spec c k); [subst c; vm_compute in H; discriminate H|] end.
   reflexivity.
 Qed.
@@ -223,7 +223,9 @@ Proof.
     cbn [app blen]. fin_tok. cbn [tk t_start t_end]. repeat split; try reflexivity; try (cbn; lia). }
   (* other_token *)
   assert (Hcnwd: not_ws_delim c = true).
-  { unfold not_ws_delim. rewrite Hdl. destruct (is_ws c); [discriminate Hb | reflexivity]. }
+  { unfold not_ws_delim, word_end. rewrite Hdl. destruct (is_ws c); [discriminate Hb|].
+    destruct (N.eqb_spec c c_comma); [contradiction|]. destruct (N.eqb_spec c c_semi); [contradiction|].
+    destruct (N.eqb_spec c 58) as [->|]; [discriminate Hsp | reflexivity]. }
   destruct (scan not_ws_delim (cur + blen g + ulen c) (bt ++ r)) as [curw restw] eqn:Hsw.
   pose proof Hsw as Hsw0. apply scan_spec in Hsw0. destruct Hsw0 as (ww & Hww & -> & Hwwp & Hwstop).
   rewrite Hww in H. rewrite (SL ww restw) in H. rewrite <- Hww in H.
